@@ -11,6 +11,15 @@ from typing import TypeVar, Generic, Optional, Iterator, Any
 from coba.exceptions import CobaException
 from coba.utilities import try_else, minimize
 
+def _is_literal(item) -> bool:
+    #True if literal_eval(repr(item)) gives the item back (e.g., not for Categorical, nan or inf)
+    t = type(item)
+    if t is float: return item == item and item not in (float('inf'),float('-inf'))
+    if t in (int,str,bool,type(None)): return True
+    if t in (tuple,list): return all(map(_is_literal,item))
+    if t is dict: return all(map(_is_literal,item.keys())) and all(map(_is_literal,item.values()))
+    return False
+
 Context = Union[None, str, Number, Sequence, Mapping]
 Action  = Union[str, Number, Sequence, Mapping]
 Actions = Union[None, Sequence['Action']]
@@ -588,10 +597,11 @@ class BinaryReward(Rewards):
             o._value == self._value)
 
     def __getstate__(self):
-        return repr((self._argmax,) if self._value == 1 else (self._argmax,self._value))
+        args = (self._argmax,) if self._value == 1 else (self._argmax,self._value)
+        return repr(args) if _is_literal(args) else args
 
     def __setstate__(self,args):
-        args = literal_eval(args)
+        if isinstance(args,str): args = literal_eval(args)
         self._argmax,self._value = (args[0],1) if len(args) == 1 else args
 
     def __repr__(self) -> str:
@@ -629,10 +639,10 @@ class HammingReward(Rewards):
         return create_shape(value,shape)
 
     def __getstate__(self):
-        return repr(self._argmax)
+        return repr(self._argmax) if _is_literal(self._argmax) else (self._argmax,)
 
     def __setstate__(self,args):
-        self._argmax = literal_eval(args)
+        self._argmax = literal_eval(args) if isinstance(args,str) else args[0]
 
     def __repr__(self) -> str:
         am = self._argmax
@@ -700,7 +710,8 @@ class DiscreteReward(Rewards):
             o._default == self._default)
 
     def __getstate__(self):
-        return repr((self._state,self._default))
+        args = (self._state,self._default)
+        return repr(args) if _is_literal(args) else args
 
     def __setstate__(self,args):
-        self._state,self._default = literal_eval(args)
+        self._state,self._default = literal_eval(args) if isinstance(args,str) else args
